@@ -6,6 +6,7 @@ mod mon;
 mod props;
 mod refs;
 mod sm2x;
+mod sm9x;
 
 use mon::Ctx;
 use std::time::Instant;
